@@ -318,6 +318,7 @@ def run(chk):
         for k_ in eng.stats:
             chk.engine_stats[k_] = chk.engine_stats.get(k_, 0) + eng.stats[k_]
     containers(chk)
+    bounded_sanity(chk)
 
 
 # ------------------------------------------------------------------------------------------------ containers (induction step)
@@ -432,3 +433,24 @@ def containers(chk):
         serialize_then_deserialize(chk, eng, st, v, ("dict.keys." + label.split(".")[2] if label.startswith("dict.keys.") else label) if reject else f"codec.{label}.rt", expect_reject=reject, desc=desc)
         for k_ in eng.stats:
             chk.engine_stats[k_] = chk.engine_stats.get(k_, 0) + eng.stats[k_]
+
+
+def bounded_sanity(chk):
+    """BOUNDED stand-in (never counted as proved): hypothesis checks of the assumed stdlib inverse pairs and an end-to-end run of the real
+    serializer on generated nested values; quick tier: 60 examples per check, thorough: 600"""
+    from pyvc.check import native
+    n = 600 if chk.tier == "thorough" else 60
+    try:
+        r = native("stdlib_sanity.py", {"examples": n, "seed": chk.seed}, timeout=900)
+    except Exception as e:  # noqa: BLE001
+        chk.fault(f"bounded stdlib sanity run failed: {e!r}")
+        return
+    chk.bounded.append({"what": "stdlib inverse pairs (json, base64, uuid, Decimal, isoformat, fromtimestamp) and real serializer round trip", "tool": "hypothesis 6.168 under /venv/bin/python", "bound": r.get("bound"),
+                        "examples": r.get("examples_per_check"), "failures": r.get("failures")})
+    ob = chk.obligation("C15.bounded.stdlib_assumptions_and_end_to_end", "BOUNDED: the assumed stdlib inverse pairs hold, and the real serializer round-trips, on generated values (depth <= 3)")
+    ob.kind = "bounded"
+    ob.vcs += 1
+    if r.get("ok"):
+        ob.discharged += 1
+    else:
+        ob.refuted.append({"inputs": {"failures": r.get("failures")}, "model": "", "replay_confirmed": True, "replay_output": r})
